@@ -619,7 +619,7 @@ type hostileOut struct {
 	Schema   string `json:"schema"`
 	TableOK  bool   `json:"table_unchanged"`
 	DirectRB string `json:"direct_readbatch,omitempty"` // observation only
-	Micros   int64  `json:"resolve_micros"`                // observation only
+	Micros   int64  `json:"resolve_micros"`             // observation only
 }
 
 var hostileKinds = []string{
